@@ -151,18 +151,28 @@ theorem mem_filterByScope {dc : Bytes} {ds : List Doc} {d : Doc} (h : d ∈ filt
   · simp only [List.mem_map] at hd
     obtain ⟨_, _, e⟩ := hd; rw [← e]; exact hx
 
+/-- every synthetic policy is the rendering of a service identity, a node identity or a templated policy -/
+theorem mem_synthDocs (U : Doc → Prop) (hsvc : ∀ x, U (svcDoc x)) (hnode : ∀ x, U (nodeDoc x))
+    (htp : ∀ x, U (tpDoc x)) (t : Token) (roles : List Role) : ∀ d ∈ synthDocs t roles, U d := by
+  intro d hd
+  simp only [synthDocs, List.mem_append, List.mem_map] at hd
+  rcases hd with (⟨x, _, rfl⟩ | ⟨x, _, rfl⟩) | ⟨x, _, rfl⟩
+  · exact hsvc x
+  · exact hnode x
+  · exact htp x
+
 theorem policiesFor_sub (U : Doc → Prop) (hsvc : ∀ x, U (svcDoc x)) (hnode : ∀ x, U (nodeDoc x))
+    (htp : ∀ x, U (tpDoc x))
     (s : Store) (hs : ∀ d ∈ s.docs, U d) (dc : Bytes) (t : Token) : ∀ d ∈ policiesFor s dc t, U d := by
   intro d hd
   unfold policiesFor policiesForV at hd
   split at hd
   · cases hd
   · have := mem_filterByScope hd
-    simp only [List.mem_append, List.mem_filterMap, List.mem_map] at this
-    rcases this with ⟨id, _, h⟩ | ⟨x, _, rfl⟩ | ⟨x, _, rfl⟩
+    simp only [List.mem_append, List.mem_filterMap] at this
+    rcases this with ⟨id, _, h⟩ | h
     · exact hs d (List.mem_of_find?_eq_some h)
-    · exact hsvc x
-    · exact hnode x
+    · exact mem_synthDocs U hsvc hnode htp _ _ d h
 
 theorem filterMap_congr' {α β : Type} {f g : α → Option β} {l : List α} (h : ∀ x ∈ l, f x = g x) :
     l.filterMap f = l.filterMap g := by
